@@ -389,7 +389,12 @@ def handleC12 : List String → String
         if bad then s!"SPEC key=success-received-but-reported-failed regionexc={cls} obs={obs}"
         else s!"OK tags=c12r,regionexc,{cls}"
     | _ => "BAD setup"
-  | "broken" :: rest => s!"DIFF harness: {" ".intercalate rest}"
+  | "broken" :: rest =>
+    -- a batch handed to a dialled, healthy connection (QueueBatch, any queue size) that never
+    -- reaches the wire: none of its calls is sent
+    if rest.any (fun t => (t.splitOn "no-request-written").length > 1) then
+      s!"SPEC key=batch-never-written {" ".intercalate rest} (calls handed to a healthy connection were not sent)"
+    else s!"DIFF harness: {" ".intercalate rest}"
   | _ => "BAD command"
 
 end GV.Drive.C11
